@@ -49,8 +49,8 @@ static int list_code(unsigned char b) { (void)b; return CAT_RETURN_STATE_PRINT_C
 static int g_cr;
 static unsigned g_cap;
 
-static int readable(unsigned i) { return i == 1 && W.cmd[1].var_num > 0 && S.vacc[0] != CAT_VAR_ACCESS_WRITE_ONLY; }
-static int writable(unsigned i) { return i == 1 && W.cmd[1].var_num > 0 && S.vacc[0] != CAT_VAR_ACCESS_READ_ONLY; }
+static int readable(unsigned i) { return i == 1 && G_cmd[1].var_num > 0 && S.vacc[0] != CAT_VAR_ACCESS_WRITE_ONLY; }
+static int writable(unsigned i) { return i == 1 && G_cmd[1].var_num > 0 && S.vacc[0] != CAT_VAR_ACCESS_READ_ONLY; }
 
 /* would the dispatcher accept AT<name><form> for command i?  form: 0 run, 1 '?', 2 '=', 3 '=?' */
 static int advertised(unsigned i, unsigned form)
@@ -60,7 +60,7 @@ static int advertised(unsigned i, unsigned form)
         case 0: return !ot && (S.hm[i] & H_RUN);
         case 1: return !ot && ((S.hm[i] & H_READ) || readable(i));
         case 2: return !ot && ((S.hm[i] & H_WRITE) || writable(i));
-        default: return (S.hm[i] & H_TEST) || W.cmd[i].var_num > 0;
+        default: return (S.hm[i] & H_TEST) || G_cmd[i].var_num > 0;
         }
 }
 
@@ -169,7 +169,7 @@ static void scen_run(void)
         g_cap = cmd_half_cap();
         /* implicit-write commands that own variables are outside the property: leave them out of the scenario */
         for (i = 0; i < M; i++)
-                ASSUME(!((S.fl[i] & F_IMPLICIT) && W.cmd[i].var_num > 0));
+                ASSUME(!((S.fl[i] & F_IMPLICIT) && G_cmd[i].var_num > 0));
 
         ref_prepare();
         for (k = 0; k < N; k++) {
